@@ -1,6 +1,8 @@
 package main
 
 import (
+	"google.golang.org/protobuf/encoding/protojson"
+	"google.golang.org/protobuf/proto"
 	"math/rand"
 	"strings"
 )
@@ -22,6 +24,7 @@ func init() {
 				m = GenWModel(rng)
 			}
 			pm := m.Proto()
+			pristine := proto.Clone(pm)
 			canon := canonModel(pm)
 			c.R.Evaluations++
 			st, errS := realWStruct(pm)
@@ -54,8 +57,9 @@ func init() {
 				c.Nontrivial(canon)
 			}
 			c10Oracle(c, m, canon, st)
-			if canonModel(pm) != canon {
-				c.OracleFail("c10:frame", map[string]any{"model": canon}, "building the weighted graph modified the model", "")
+			if canonModel(pm) != canon || !proto.Equal(pm, pristine) {
+				js, _ := protojson.Marshal(pristine)
+				c.OracleFail("c10:frame", map[string]any{"model": canon, "model_json": string(js)}, "building the weighted graph modified the model", "")
 			}
 			// the public Build must construct the same structure on accepted models
 			rb := realWBuild(pm)
